@@ -35,13 +35,14 @@ type RoutesJob struct {
 
 // Job is one run of the real pipeline over one project directory in a fresh process.
 type Job struct {
-	Dir      string      `json:"dir"`
-	Config   string      `json:"config"`
-	Specs    []string    `json:"specs"`  // OpenAPI versions to generate
-	Routes   []RoutesJob `json:"routes"` // routes generations
-	Runs     int         `json:"runs"`   // C19: extra Run() calls on the same pipeline, each compared with the first
-	Timeout  int         `json:"timeout_s"`
-	KeepGoin bool        `json:"keep_going"` // generate artifacts even when validation reported errors (never used for acceptance)
+	Dir          string      `json:"dir"`
+	Config       string      `json:"config"`
+	Specs        []string    `json:"specs"`  // OpenAPI versions to generate
+	Routes       []RoutesJob `json:"routes"` // routes generations
+	Runs         int         `json:"runs"`   // C19: extra Run() calls on the same pipeline, each compared with the first
+	Timeout      int         `json:"timeout_s"`
+	KeepGoin     bool        `json:"keep_going"`    // generate artifacts even when validation reported errors (never used for acceptance)
+	ValidateOnly bool        `json:"validate_only"` // stop after Validate (no intermediate metadata, no artifacts)
 }
 
 type Diag struct {
@@ -243,7 +244,7 @@ func runJob(job Job) *Result {
 			res.ErrorText = diagnostics.DiagnosticsToError(ents).Error()
 		})
 	}
-	if res.ValidateErr != "" || (res.ErrorDiags > 0 && !job.KeepGoin) {
+	if res.ValidateErr != "" || (res.ErrorDiags > 0 && !job.KeepGoin) || job.ValidateOnly {
 		return res
 	}
 	var meta pipeline.GleeceFlattenedMetadata
